@@ -359,7 +359,7 @@ Proof.
         destruct X as [X1 [X2 [_ [X4 [X5 [X6 [X7 _]]]]]]]. eapply NI_same; [..|exact Hn]; auto. }
       destruct (rc =? 0); cbn [fst snd]; (split; [|repeat constructor]); apply NI_append; auto.
   - (* ORawInit *)
-    destruct (_ || _); [split; [auto|repeat constructor]|]. cbn [fst snd]. split; [|repeat constructor].
+    destruct (_ || _ || _); [split; [auto|repeat constructor]|]. cbn [fst snd]. split; [|repeat constructor].
     unfold raw_init. apply NI_append; auto.
   - (* OStart *)
     destruct (valid s h && _) eqn:Hv; [|split; [auto|repeat constructor]].
